@@ -2,8 +2,8 @@
 #define _PROPHY_PROPHY_HPP
 
 #include <stdint.h>
+#include <string.h>
 #include <prophy/detail/align.hpp>
-#include <prophy/detail/prophy.hpp>
 #include <prophy/detail/struct.hpp>
 
 namespace prophy
@@ -58,17 +58,26 @@ inline void swap(int64_t* in)
 
 inline void swap(float* in)
 {
-    swap(reinterpret_cast<uint32_t*>(in));
+    uint32_t bits;
+    memcpy(&bits, in, sizeof(bits));  /// swapping through a uint32_t* breaks the aliasing rules
+    swap(&bits);
+    memcpy(in, &bits, sizeof(bits));
 }
 
 inline void swap(double* in)
 {
-    swap(reinterpret_cast<uint64_t*>(in));
+    uint64_t bits;
+    memcpy(&bits, in, sizeof(bits));
+    swap(&bits);
+    memcpy(in, &bits, sizeof(bits));
 }
 
 template <class T>
 T* swap(T*);
 
 } // namespace prophy
+
+/// swap_n_fixed / swap_n_dynamic call the overloads above: they have to be declared first
+#include <prophy/detail/prophy.hpp>
 
 #endif  /* _PROPHY_PROPHY_HPP */
